@@ -126,6 +126,8 @@ func verifNote(s string)
 func verifSplit(v uint64, lo, hi uint64) uint64
 func verifIsSymbolic(v uint64) bool
 func verifAnd(a, b bool) bool
+func verifQuick() bool
+func verifSeed() uint64
 func verifOr(a, b bool) bool
 func verifIte(c bool, a, b uint64) uint64
 `
@@ -173,6 +175,8 @@ func verifNote(s string)                        {}
 func verifSplit(v uint64, lo, hi uint64) uint64 { return v }
 func verifIsSymbolic(v uint64) bool             { return false }
 func verifAnd(a, b bool) bool                   { return a && b }
+func verifQuick() bool                          { return false }
+func verifSeed() uint64                         { return 0 }
 func verifOr(a, b bool) bool                    { return a || b }
 func verifIte(c bool, a, b uint64) uint64 {
 	if c {
@@ -427,7 +431,8 @@ func runTask(p *Program, t Task, base Config, wid int) (*Report, SolverStats, []
 		ex.rep.Unsupported = append(ex.rep.Unsupported, "entry not found: "+ob.Entry)
 		return ex.rep, sol.Stats, nil
 	}
-	st := &State{heap: map[int]Value{}, nextObj: p.baseNext, model: Model{}}
+	ctr := p.baseNext
+	st := &State{heap: map[int]Value{}, nextObj: p.baseNext, objCtr: &ctr, model: Model{}}
 	st.threads = []*Thread{{id: 0}}
 	ex.pushFrame(st, st.threads[0], fn, nil, nil, nil)
 	ex.explore([]*State{st}, nil)
@@ -528,7 +533,7 @@ func cmdRun(args []string) int {
 		writeEvidence(&spec, *tier, seed, nil, nil, time.Since(t0), *evidence, []string{"load failed: " + err.Error()}, 0)
 		return 2
 	}
-	base := Config{Unwind: 300, TimeoutMs: 60000, SolverKind: *solver, Verbose: *verbose, LogSMT: *logsmt, MaxViol: 3}
+	base := Config{Tier: *tier, Seed: uint64(seed), Unwind: 300, TimeoutMs: 60000, SolverKind: *solver, Verbose: *verbose, LogSMT: *logsmt, MaxViol: 3}
 	if err := prog.runInits(&base); err != nil {
 		fmt.Println("INCONCLUSIVE package initialisation failed in the interpreter:", err)
 		return 2
